@@ -1,7 +1,202 @@
-import KotoVerif.Model.Lexer
+/-
+C09 — Lexing is lossless and positions are exact: property theorems about `Model/Lexer.lean`
+(the model is tied to `koto_lexer` by the exhaustive correspondence run of `harness/src/bin/c09.rs`).
+
+Conventions: `src : List Ch` is the input with its supplied Unicode facts; `lexAll src` are the
+model's tokens up to and including the first `Error` token; `TableOk src` is the only assumption on
+the supplied tables (a line feed is not an identifier character — checked by the harness on every
+character it sends).
+-/
+import KotoVerif.Lemmas.C09Inv
+
 namespace KotoVerif.C09
 open KotoVerif.Lexer
 
-theorem lexAll_nil : lexAll [] = [] := by decide
+/-! ## specification vocabulary (no implementation detail) -/
+
+/-- byte offset `n` is a character boundary inside `src` -/
+def boundaryAt (src : List Ch) (n : Nat) : Bool := (prefixAt n src).isSome
+
+/-- byte offset `n` is a character boundary of `src` and exactly `line` line breaks precede it -/
+def exactAt (src : List Ch) (n line : Nat) : Bool :=
+  match prefixAt n src with
+  | some pre => line == nlCount pre
+  | none => false
+
+/-- the token's text contains no line break (offsets not on boundaries count as "no") -/
+def noBreakInside (src : List Ch) (l : Lexed) : Bool :=
+  match prefixAt l.startByte src, prefixAt l.endByte src with
+  | some a, some b => nlCount a == nlCount b
+  | _, _ => false
+
+/-- the one token kind excluded from `lines_exact_partial` (finding F-C09-1): a format-options
+token that contains a line break -/
+def badFormatToken (src : List Ch) (l : Lexed) : Bool := l.fromFormat && !noBreakInside src l
+
+/-- consecutive non-error tokens tile the input from byte `a` on -/
+def Chain : Nat → List Lexed → Prop
+  | _, [] => True
+  | a, l :: ls => (l.tok ≠ .error → l.startByte = a ∧ l.startByte ≤ l.endByte) ∧ Chain l.endByte ls
+
+/-- `P` holds for every token before the first bad format token -/
+def AllBeforeBad (src : List Ch) (P : Lexed → Prop) : List Lexed → Prop
+  | [] => True
+  | l :: ls => badFormatToken src l = false → (P l ∧ AllBeforeBad src P ls)
+
+/-! ## generic run lemma -/
+
+theorem exactAt_of (src pre post : List Ch) (n line : Nat) (h : src = pre ++ post) (hn : byteLen pre = n)
+    (hl : line = nlCount pre) : exactAt src n line = true := by
+  unfold exactAt
+  rw [h, ← hn, prefixAt_append]; simp [hl]
+
+theorem boundaryAt_of (src pre post : List Ch) (n : Nat) (h : src = pre ++ post) (hn : byteLen pre = n) :
+    boundaryAt src n = true := by
+  unfold boundaryAt
+  rw [h, ← hn, prefixAt_append]; rfl
+
+/-! ## property theorems -/
+
+/-- **Contiguity / losslessness.** The tokens before the first error token tile the input
+contiguously from its start: the first starts at byte 0 and each starts where the previous one
+ended (so concatenating their texts reproduces that prefix of the input). -/
+theorem tokens_contiguous (src : List Ch) (ht : TableOk src) : Chain 0 (lexAll src) := by
+  suffices H : ∀ fuel s, Inv false src s → Chain s.cur (lexFuel src fuel s) by
+    exact H _ _ (inv_init false src)
+  intro fuel
+  induction fuel with
+  | zero => intro s _; simp [lexFuel, Chain]
+  | succ fuel ih =>
+    intro s hinv
+    simp only [lexFuel]
+    cases hstep : stepD src s with
+    | none => simp [Chain]
+    | some ds =>
+      obtain ⟨d, s'⟩ := ds
+      simp only
+      by_cases he : d.tok = .error
+      · simp [he, Chain, lexedOf]
+      · simp only [he, if_false]
+        obtain ⟨hinv', h1, h2, _⟩ := stepD_inv false src s s' d ht hinv hstep he (by simp)
+        refine ⟨fun _ => ⟨h1, by simp [lexedOf, h1, h2]⟩, ?_⟩
+        exact ih s' hinv'
+
+/-- **Character boundaries.** Every non-error token starts and ends on a character boundary of the
+input (in particular inside the input). -/
+theorem tokens_on_boundaries (src : List Ch) (ht : TableOk src) :
+    ∀ l ∈ lexAll src, l.tok ≠ .error →
+      boundaryAt src l.startByte = true ∧ boundaryAt src l.endByte = true := by
+  suffices H : ∀ fuel s, Inv false src s → ∀ l ∈ lexFuel src fuel s, l.tok ≠ .error →
+      boundaryAt src l.startByte = true ∧ boundaryAt src l.endByte = true by
+    exact H _ _ (inv_init false src)
+  intro fuel
+  induction fuel with
+  | zero => intro s _ l hl; simp [lexFuel] at hl
+  | succ fuel ih =>
+    intro s hinv l hl hne
+    simp only [lexFuel] at hl
+    cases hstep : stepD src s with
+    | none => simp [hstep] at hl
+    | some ds =>
+      obtain ⟨d, s'⟩ := ds
+      simp only [hstep] at hl
+      by_cases he : d.tok = .error
+      · simp only [he, if_true, List.mem_singleton] at hl
+        subst hl
+        exact absurd he hne
+      · simp only [he, if_false, List.mem_cons] at hl
+        obtain ⟨hinv', h1, _, _⟩ := stepD_inv false src s s' d ht hinv hstep he (by simp)
+        rcases hl with hl | hl
+        · subst hl
+          obtain ⟨pre, post, e1, e2, _⟩ := hinv
+          obtain ⟨pre', post', e1', e2', _⟩ := hinv'
+          exact ⟨boundaryAt_of src pre post _ e1 (by simp [lexedOf, h1, e2]),
+                 boundaryAt_of src pre' post' _ e1' (by simp [lexedOf, e2'])⟩
+        · exact ih s' hinv' l hl hne
+
+/-- **Exact lines (partial: finding F-C09-1 excluded).** For every non-error token before the first
+format-options token that contains a line break, the reported start line and end line equal the
+number of line breaks before the token's start and end. -/
+theorem lines_exact_partial (src : List Ch) (ht : TableOk src) :
+    AllBeforeBad src (fun l => l.tok ≠ .error →
+      exactAt src l.startByte l.span.start.line = true ∧
+      exactAt src l.endByte l.span.stop.line = true) (lexAll src) := by
+  suffices H : ∀ fuel s, Inv true src s → AllBeforeBad src (fun l => l.tok ≠ .error →
+      exactAt src l.startByte l.span.start.line = true ∧
+      exactAt src l.endByte l.span.stop.line = true) (lexFuel src fuel s) by
+    exact H _ _ (inv_init true src)
+  intro fuel
+  induction fuel with
+  | zero => intro s _; simp [lexFuel, AllBeforeBad]
+  | succ fuel ih =>
+    intro s hinv
+    simp only [lexFuel]
+    cases hstep : stepD src s with
+    | none => simp [AllBeforeBad]
+    | some ds =>
+      obtain ⟨d, s'⟩ := ds
+      simp only
+      by_cases he : d.tok = .error
+      · simp only [he, if_true, AllBeforeBad]
+        intro _
+        exact ⟨fun h => absurd (by simp [lexedOf, he]) h, trivial⟩
+      · simp only [he, if_false, AllBeforeBad]
+        intro hbad
+        -- the step keeps the line invariant because the token is not a bad format token
+        have hprev : s'.prev = s.cur := by
+          obtain ⟨_, h1, _, _⟩ := stepD_inv false src s s' d ht
+            (by obtain ⟨a, b, h1, h2, _, h4, h5⟩ := hinv; exact ⟨a, b, h1, h2, by simp, h4, h5⟩) hstep he (by simp)
+          exact h1
+        have hgood : true = true → d.fromFormat = true →
+            ∀ a b, prefixAt s.cur src = some a → prefixAt s'.cur src = some b → nlCount b = nlCount a := by
+          intro _ hf a b ha hb
+          simp only [badFormatToken, lexedOf, hf, Bool.true_and, Bool.not_eq_false', noBreakInside,
+            hprev, ha, hb] at hbad
+          have := hbad; simp at this; omega
+        obtain ⟨hinv', h1, _, h4⟩ := stepD_inv true src s s' d ht hinv hstep he hgood
+        refine ⟨fun _ => ?_, ih s' hinv'⟩
+        obtain ⟨pre, post, e1, e2, e3, _⟩ := hinv
+        obtain ⟨pre', post', e1', e2', e3', _⟩ := hinv'
+        exact ⟨exactAt_of src pre post _ _ e1 (by simp [lexedOf, h1, e2]) (by simp [lexedOf, h4, e3 rfl]),
+               exactAt_of src pre' post' _ _ e1' (by simp [lexedOf, e2']) (by simp [lexedOf, e3' rfl])⟩
+
+/-! ## the excluded case is real: F-C09-1 -/
+
+/-- ASCII character with the Unicode facts the real tables give it (width 1, XID flags as listed) -/
+def ascii (cp : Nat) (idS idC : Bool) : Ch := { cp := cp, width := 1, idStart := idS, idCont := idC, g1 := 1, g2 := 1 }
+
+/-- the witness `'{a:⏎}'` (the line feed has width 0 and is the last-but-two character) -/
+def witnessF1 : List Ch :=
+  [ascii 39 false false, ascii 123 false false, ascii 97 true true, ascii 58 false false,
+   { cp := 10, width := 0, idStart := false, idCont := false, g1 := 1, g2 := 1 },
+   ascii 125 false false, ascii 39 false false]
+
+/-- **Negation witness for the unrestricted statement (F-C09-1).** On `'{a:⏎}'` the format-options
+token (bytes 4..5) reports end line 0 although one line break precedes its end; the same input
+replayed on `koto_lexer` gives the same token (known finding F-C09-1). -/
+theorem lines_exact_witness :
+    ∃ l ∈ lexAll witnessF1, l.tok ≠ .error ∧ l.fromFormat = true ∧
+      exactAt witnessF1 l.endByte l.span.stop.line = false := by
+  refine ⟨⟨.stringLiteral, 4, 5, ⟨⟨0, 4⟩, ⟨0, 5⟩⟩, 0, true⟩, by decide, by decide, rfl, by decide⟩
+
+/-! ## non-vacuity -/
+
+/-- the table assumption is satisfiable by a non-trivial input that exercises strings, format
+options and line breaks, and `lines_exact_partial` says something about all of its tokens -/
+example : TableOk witnessF1 := by
+  intro c hc h
+  simp only [witnessF1, List.mem_cons, List.mem_nil_iff, or_false] at hc
+  rcases hc with rfl | rfl | rfl | rfl | rfl | rfl | rfl <;> simp_all [ascii, cpNL]
+
+/-- `x = 'a⏎b'` followed by a newline: no bad token at all, every token is covered -/
+def sampleOk : List Ch :=
+  [ascii 120 true true, ascii 32 false false, ascii 61 false false, ascii 32 false false,
+   ascii 39 false false, ascii 97 true true,
+   { cp := 10, width := 0, idStart := false, idCont := false, g1 := 1, g2 := 1 },
+   ascii 98 true true, ascii 39 false false,
+   { cp := 10, width := 0, idStart := false, idCont := false, g1 := 1, g2 := 1 }]
+
+example : (lexAll sampleOk).length = 8 ∧ (lexAll sampleOk).all (fun l => !badFormatToken sampleOk l) = true := by
+  decide
 
 end KotoVerif.C09
